@@ -709,8 +709,8 @@ impl Vec4<u64> for u64x4_generic {
         d[i as usize]
     }
     #[inline(always)]
-    fn insert(self, v: u64, i: u32) -> Self {
-        self.0[(i / 2) as usize].insert(v, i % 2);
+    fn insert(mut self, v: u64, i: u32) -> Self {
+        self.0[(i / 2) as usize] = self.0[(i / 2) as usize].insert(v, i % 2);
         self
     }
 }
